@@ -55,9 +55,13 @@ Definition deSerialize (e : entry) : pgEntry :=
         (beField e pg_move_off pg_move_len two16)
         (beField e pg_weight_off pg_weight_len two16).
 
-(** [data[off+i] = x >> (8*(len-1-i))] truncated to a byte *)
-Definition beBytes (x : N) (len : nat) : list byte :=
-  map (fun i => (N.shiftr x (8 * N.of_nat (len - 1 - i))) mod 256)%N (seq 0 len).
+(** [data[off+i] = x >> (8*(len-1-i))] truncated to a byte: the last byte is the low byte of [x],
+    the bytes before it are the bytes of [x >> 8] *)
+Fixpoint beBytes (x : N) (len : nat) : list byte :=
+  match len with
+  | O => []
+  | S l => beBytes (N.shiftr x 8) l ++ [x mod 256]%N
+  end.
 
 Definition serialize (h m w : N) : entry :=
   beBytes h pg_hash_len ++ beBytes m pg_move_len ++ beBytes w pg_weight_len ++ repeat 0%N 4.
@@ -96,6 +100,29 @@ Definition getMoveP (wtm : bool) (pcFrom : piece) (mv : N) : move :=
 
 Definition getMove (pos : position) (mv : N) : move :=
   getMoveP (whiteMove pos) (getPiece pos (moveFrom mv)) mv.
+
+(** * PolyglotBook::getPGMove *)
+Definition getPGMoveP (pcFrom : piece) (m : move) : N :=
+  let fromX := sqX (mfrom m) in
+  let fromY := sqY (mfrom m) in
+  let toY := sqY (mto m) in
+  let toX :=
+    fold_left (fun tx c =>
+                 match c with
+                 | (f, pc, (a, ax), (b, bx)) =>
+                     if ((mfrom m =? f) && (pcFrom =? pc))%N
+                     then (let tx1 := if (mto m =? a)%N then ax else tx in
+                           if (mto m =? b)%N then bx else tx1)
+                     else tx
+                 end) pgEncCastle (sqX (mto m)) in
+  let prom := match find (fun e => (fst e =? mpromote m)%N) pgEncProm with
+              | Some (_, c) => c
+              | None => 0%N
+              end in
+  ((N.lor toX (N.lor (N.shiftl toY pgEnc_toY_shift) (N.lor (N.shiftl fromX pgEnc_fromX_shift)
+     (N.lor (N.shiftl fromY pgEnc_fromY_shift) (N.shiftl prom pgEnc_prom_shift))))) mod two16)%N.
+
+Definition getPGMove (pos : position) (m : move) : N := getPGMoveP (getPiece pos (mfrom m)) m.
 
 (** * PolyglotBook::getHashKey *)
 Definition hashRandom (i : N) : N := nth (N.to_nat i) hashRandoms 0%N.
